@@ -33,6 +33,83 @@ def cases(draw, tier):
     return spec
 
 
+def _overwrite(dst, src):
+    """Copy src's content into dst's array objects IN PLACE; False when there is no array object to edit."""
+    import numpy
+
+    if isinstance(dst, tuple):
+        return all([_overwrite(d, s) for d, s in zip(dst, src)])
+    if not isinstance(dst, numpy.ndarray) or dst.dtype != src.dtype or dst.shape != src.shape:
+        return False
+    dst[...] = src
+    return True
+
+
+def _rolled(spec, step):
+    spec = dict(spec)
+    v = list(spec["valid"])
+    step = step % len(v) if v else 0
+    spec["valid"] = v[step:] + v[:step]
+    return spec
+
+
+def edited_pass(case, dense, full, ns, Narg):
+    """The rule is about the arguments' CURRENT content: evaluate, then overwrite the very same fact / weight array
+    objects in place with another missing pattern (a value voided, a missing one filled in) and evaluate again."""
+    import numpy
+
+    N = case["N"]
+    agg = case["agg"]
+    f, w = case["fact"], case["weights"]
+    after = dict(case)
+    changed = False
+    if f is not None and not f["as_list"] and not all(f["valid"]) and any(f["valid"]):
+        after["fact"] = _rolled(f, f["K"] or 1)
+        changed = changed or after["fact"]["valid"] != f["valid"]
+    if w is not None and w["kind"] == "array" and not w["as_list"] and not all(w["valid"]) and any(w["valid"]):
+        after["weights"] = _rolled(w, 1)
+        changed = changed or after["weights"]["valid"] != w["valid"]
+    if not changed:
+        return 0
+    done = 0
+    for ignore in (False, True):
+        sub0, sub1 = dict(case, ignore=ignore), dict(after, ignore=ignore)
+        farg, warg, _, _, _, _ = c03.expected(sub0, dense, full)
+        f1, w1, exp_v, exp_m, _, _ = c03.expected(sub1, dense, full)
+        for kind in ("ccube", "xcube"):
+            for rma in ("nan", ["tuple", case["sentinel"]]):
+                fa, wa, _, _, _, _ = c03.expected(sub0, dense, full)
+                what = "%s.%s(ignore_missing=%s, %s)" % (kind, agg, ignore, rma)
+                em = exp_m
+                with libcall(what + " before / after an in-place edit of its arguments"):
+                    if kind == "ccube":
+                        cube, _ = Q.make_ccube(case, dense)
+                    else:
+                        cube, used = Q.make_xcube(case, dense, case["xdtypes"], case["xexplicit"])
+                        if tuple(used) != tuple(full):
+                            _, em, _ = Q.crop_to(exp_v, exp_m, ns, used, full)
+                    Q.call_agg(cube, agg, fa, wa, ignore, rma, N=Narg)
+                    ok = True
+                    if fa is not None and sub1["fact"] is not sub0["fact"]:
+                        ok = _overwrite(fa, f1) and ok
+                    if sub1["weights"] is not sub0["weights"]:
+                        ok = _overwrite(wa, w1) and ok
+                    if not ok:
+                        continue
+                    res = Q.call_agg(cube, agg, fa, wa, ignore, rma, N=Narg)
+                gv, gm = Q.normalise(res, rma, what)
+                gv, gm = c03.fix0d(gv, gm, numpy.empty(em.shape))
+                done += 1
+                if gm is not None and gm.shape == em.shape and not numpy.array_equal(gm, em):
+                    idx = tuple(int(x) for x in numpy.argwhere(gm != em)[0])
+                    raise Violation(
+                        "%s after its fact/weight arrays were edited in place: cell %s is reported %s but the rule, "
+                        "applied to the arrays' current content, says %s" % (
+                            what, idx, "missing" if gm[idx] else "valid", "missing" if em[idx] else "valid"),
+                        sig="%s.%s missing rule after an in-place edit" % (kind, agg))
+    return done
+
+
 def check(case, rec):
     import numpy
 
@@ -101,6 +178,9 @@ def check(case, rec):
                     raise Violation("%s.%s ignore=%s: plain format holds %r at a missing cell, expected the "
                                     "replacement value 0" % (kind, agg, ignore, float(pv[nm][0])),
                                     sig="%s.%s plain format at missing cells" % (kind, agg))
+    edited = edited_pass(case, dense, full, ns, Narg)
+    if edited:
+        rec.note("in-place edited arguments re-evaluated")
     recon = any(bool((a == d["common"]).any()) for d, a in zip(case["dims"], dense))
     f = case["fact"]
     percol = False
